@@ -147,3 +147,24 @@ fn f5_document_less_yaml_slice_equals_reader() {
 	}
 	assert!(bad.is_empty(), "{} violations, first: {}", bad.len(), bad[0]);
 }
+
+/// F3, second half (harness i2_yaml_routing): UTF-16BE / UTF-32BE text whose bytes also happen to be valid, non-ASCII
+/// UTF-8 (U+C3A9 is the byte pair C3 A9 = "e with acute" in UTF-8) is still re-encoded when it comes from a slice.
+#[test]
+fn f3_utf16_text_that_is_also_valid_non_ascii_utf8() {
+	for text in ["a: \u{c3a9}\n", "k: \"\u{c2a0}\u{c3a9}\u{c9a8}\"\n", "- \u{d0b0}\n- \u{c3a9}: 1\n"] {
+		let mut want = Vec::new();
+		xt::translate_slice(text.as_bytes(), Some(Format::Yaml), Format::Json, &mut want).unwrap();
+		let utf16: Vec<u8> = text.encode_utf16().flat_map(|u| u.to_be_bytes()).collect();
+		let utf32: Vec<u8> = text.chars().flat_map(|c| (c as u32).to_be_bytes()).collect();
+		for bytes in [&utf16, &utf32] {
+			assert!(std::str::from_utf8(bytes).is_ok(), "test premise: the encoded bytes are valid UTF-8");
+			let mut o1 = Vec::new();
+			let r1 = xt::translate_slice(bytes, Some(Format::Yaml), Format::Json, &mut o1).map_err(|e| e.to_string());
+			let mut o2 = Vec::new();
+			let r2 = xt::translate_reader(&bytes[..], Some(Format::Yaml), Format::Json, &mut o2).map_err(|e| e.to_string());
+			assert_eq!((r2, &o2), (Ok(()), &want), "reader: {bytes:02x?}");
+			assert_eq!((r1, &o1), (Ok(()), &want), "slice: {bytes:02x?} is UTF-16/32 by the YAML rules and must be re-encoded");
+		}
+	}
+}
